@@ -29,7 +29,7 @@ def run(ctx):
     common.proof_side(ctx, THEOREMS, modules=["QProps.C09", "QProps.C10"])
     drv = common.Driver()
     rng = ctx.rng
-    n = 60 if ctx.tier == "quick" else 1200
+    n = 150 if ctx.tier == "quick" else 1200
     done = 0
     for i in range(n * 4):
         if ctx.left() < 25 or done >= n:
